@@ -171,18 +171,18 @@ func (p *Program) Funcs() []*Func {
 
 // ---- construction helpers used by generators
 
-func N(text string) *NumLit { return &NumLit{Text: text} }
-func S(raw string) *StrLit  { return &StrLit{Raw: raw} }
-func V(name string) *Var    { return &Var{Name: name} }
+func N(text string) *NumLit            { return &NumLit{Text: text} }
+func S(raw string) *StrLit             { return &StrLit{Raw: raw} }
+func V(name string) *Var               { return &Var{Name: name} }
 func Bin(op string, l, r Expr) *Binary { return &Binary{Op: op, L: l, R: r} }
-func Asg(l, r Expr) *Assign { return &Assign{Op: "=", L: l, R: r} }
-func Mem(x Expr, name string) *Member { return &Member{X: x, Name: name} }
-func Idx(x, i Expr) *Index  { return &Index{X: x, I: i} }
+func Asg(l, r Expr) *Assign            { return &Assign{Op: "=", L: l, R: r} }
+func Mem(x Expr, name string) *Member  { return &Member{X: x, Name: name} }
+func Idx(x, i Expr) *Index             { return &Index{X: x, I: i} }
 func CallE(f Expr, args ...Expr) *Call { return &Call{F: f, Args: args} }
 func Meth(x Expr, name string, args ...Expr) *Call {
 	return &Call{F: &Member{X: x, Name: name}, Args: args}
 }
-func Blk(ss ...Stmt) *Block { return &Block{Stmts: ss} }
-func Pr(args ...Expr) *Print { return &Print{Args: args} }
-func ES(x Expr) *ExprStmt   { return &ExprStmt{X: x} }
+func Blk(ss ...Stmt) *Block       { return &Block{Stmts: ss} }
+func Pr(args ...Expr) *Print      { return &Print{Args: args} }
+func ES(x Expr) *ExprStmt         { return &ExprStmt{X: x} }
 func Arr(items ...Expr) *ArrayLit { return &ArrayLit{Items: items} }
